@@ -6,8 +6,9 @@ EXPLANATION = (
     "C10 (clone independence): frame conditions - after any vault operation a second vault built from copies of the same items "
     "is unchanged, the caller's item is neither inserted nor modified when clone=True, and map lists handed out earlier are not "
     "mutated except by the documented in-place append at the end. "
+    "Above the vault: the real Row.clone / Cell.clone (cached positions included), XmlPart.clone and Document.clone on a real Document over an in-memory container: equal at birth whatever was edited since the parts were loaded (serialize() included), cloning never modifies the original, independent afterwards. "
 )
-OUTSIDE = "Container.clone on zip/folder containers and Document.clone (zip loading, lazily loaded parts, unsaved-edit visibility): I/O, not encodable; XmlPart.clone is covered on an in-memory container only"
+OUTSIDE = "Container.clone on zip/folder containers (zip loading, lazily loaded parts: file I/O, not encodable - the repaired defect dda2d6b was confirmed concretely only); Document.clone and XmlPart.clone are covered on the in-memory container"
 ASSUMPTIONS = ["pre-states are run-length encodings with repeats >= 1 whose maps equal make_cache_map(XML)"]
 TRUSTED = _T
 OBLIGATIONS = vault_obligations(10) + krow_obligations(10) + ktab_obligations(10, 40, 'nr')
